@@ -1,7 +1,7 @@
 (* C17 model driver: same case language as harness/c17_bulk.c and harness/c17_mtbb.cc, same output
    lines.  The input layout of the C harness is mirrored here (function slot j holds function
-   number j mod nfun; `many` passes function number many_fid; attribute slot j asks for stack size
-   base + j, reported back as the slot's byte offset). *)
+   number j mod nfun; `many` passes function number many_fid; attribute slot j asks for a stack size
+   carrying j in its low bits, reported back as the slot's byte offset, or for stack size 0 = -2). *)
 open VariousModel
 let zs = Zio.z_of_string and sz = Zio.string_of_z
 let zi = Zio.z_of_int and iz = Zio.int_of_z
@@ -13,9 +13,15 @@ let b_ids = 1 lsl 40 and b_attrs = 2 lsl 40 and b_funcs = 3 lsl 40 and b_args = 
 let join sep l = String.concat sep l
 let sort_uniq_ints l = Stdlib.List.sort_uniq compare l
 
-let bulk toks =
+(* same formulas as harness/c17_bulk.c: which attribute slots ask for stack size 0 *)
+let slot_hash seed j = (seed * 7919 + j * 104729 + ((j * j) mod 1009) * 31) mod 1000003
+let slot_stack_zero sk seed j = sk = 2 || (sk = 3 && slot_hash seed j mod 3 = 0)
+
+let rec bulk toks =
   match toks with
-  | [_w; kind; n; fs; as_; rs; is; ts; hr; hi; ht] ->
+  | [_w; _kind; _n; _fs; _as; _rs; _is; _ts; _hr; _hi; _ht] -> bulk (toks @ ["5"; "0"; "0"])
+  | [_w; kind; n; fs; as_; rs; is; ts; hr; hi; ht; _cf; sk; seed] ->
+    let sk = int_of_string sk and seed = int_of_string seed in
     let n = int_of_string n and fs = int_of_string fs and as_ = int_of_string as_ and rs = int_of_string rs
     and is = int_of_string is and ts = int_of_string ts in
     let many_ = (kind = "many") in
@@ -41,7 +47,11 @@ let bulk toks =
        let res = Stdlib.List.sort_uniq compare res in
        let idl = sort_uniq_ints (Stdlib.List.filter_map (fun (l : leaf) -> match l.l_id with Some r -> Some (iz r - b_ids) | None -> None) lvs) in
        let cr = creates acts in
-       let cre = Stdlib.List.sort compare (Stdlib.List.map (fun (_, at) -> match at with Some a -> iz a - b_attrs | None -> -1) cr) in
+       let cre = Stdlib.List.sort compare (Stdlib.List.map (fun (_, at) -> match at with
+           | Some a -> let off = iz a - b_attrs in
+             let j = if ts = 0 then 0 else off / ts in
+             if slot_stack_zero sk seed j then -2 else off
+           | None -> -1) cr) in
        let njoin = Stdlib.List.length (Stdlib.List.filter (fun a -> match a with AJoin _ -> true | _ -> false) acts) in
        let balanced = (match fj [] acts with Some [] -> true | _ -> false) in
        Printf.sprintf "ret=0 inv=%s res=%s resstray=0 ids=%s idmis=0 idstray=0 cre=%s created=%d reaped=%d argchg=0 funchg=0 attrchg=0%s"
